@@ -193,15 +193,21 @@ def EXTRA_SHAPES():
         # orthogonal region: unit arithmetic of BitArray views inside the registry
         # … and an orthogonal region whose LATER prong holds a nested composite region (a request of a batch must be
         # forwarded into every flagged prong, and resolved below it)
+        # … an orthogonal region of 9 sub-states (two units) declared BEFORE another orthogonal region (unit offsets of later
+        # regions: `orthoUnits[]`), the last one exactly 8 wide with a sub-region of its own
         (P('(C h1 i0 composite (L i0) (O h1 i0 (C h1 i0 composite (L i0) (L i0)) (C h1 i0 composite (L i0) (C h1 i0 composite (L i0) (L i0)))) '
-           '(O h1 i0 (L i0) (L i0) (L i0) (L i0) (L i0) (L i0) (L i0) (L i0)))'),
+           '(O h1 i0 (L i0) (L i0) (L i0) (L i0) (L i0) (L i0) (L i0) (L i0) (L i0)) '
+           '(O h1 i0 (C h1 i0 composite (L i0) (L i0)) (L i0) (L i0) (L i0) (L i0) (L i0) (L i0) (L i0)))'),
          [dict(), dict(bottomup=1, manual=1, log=2)]),
         # utility regions nested in utility regions: a nested region's utility is its head's times that of the
         # sub-state it would activate, on the change / utilize / randomize paths, headed and anonymous
         # (the utilitarian region's FIRST candidate is a headed region: it wins an all-zero arg-max and must then still be
         # resolved inside — harness sweepZeroUtility)
-        (P('(C h1 i0 composite (L i0) (C h1 i0 utilitarian (C h1 i0 random (L i0) (L i0) (C h1 i0 utilitarian (L i0) (L i0))) (L i0)) '
-           '(C h1 i0 random (C h1 i0 utilitarian (L i0) (L i0)) (L i0) (C h0 i0 random (L i0) (L i0))))'),
+        # the root is 5 wide with regions at a non-first position of its left half and in its right half (balanced-half
+        # dispatch by prong in every wide* function), and a 4-wide Resumable region is a candidate of the utilitarian one
+        (P('(C h1 i0 composite (L i0) (C h1 i0 utilitarian (C h1 i0 random (L i0) (L i0) (C h1 i0 utilitarian (L i0) (L i0))) (L i0) '
+           '(C h1 i0 resumable (L i0) (L i0) (L i0) (L i0))) '
+           '(C h1 i0 random (C h1 i0 utilitarian (L i0) (L i0)) (L i0) (C h0 i0 random (L i0) (L i0))) (L i0) (C h1 i0 composite (L i0) (L i0)))'),
          [dict(), dict(log=2, manual=1)]),
     ]
 
@@ -232,12 +238,8 @@ def _run(job):
     """Worker (own process): run one generated program, replay its transcript through the model, judge it."""
     idx, exe, seed, scen, ops, out, sweep, sexpr, cfg = job
     t0 = time.time()
-    with open(out, 'wb') as f:
-        try:
-            p = subprocess.run([exe, str(seed), str(scen), str(ops), str(sweep)], stdout=f, stderr=subprocess.PIPE, timeout=2400)
-            st, err = p.returncode, p.stderr.decode('utf8', 'replace')[-4000:]
-        except subprocess.TimeoutExpired:
-            st, err = -9, 'timeout (possible non-termination inside the library)'
+    p = V.run_limited([exe, str(seed), str(scen), str(ops), str(sweep)], out, timeout=600 if scen <= 30 else 2400)
+    st, err = p.returncode, p.stderr
     ok, n, msgs = (False, 0, ['harness failed']) if st != 0 else V.run_driver_all('mach', out, timeout=3000)
     rej, asserts, oracle_err = {}, {}, None
     stats = O.Stats()
@@ -345,11 +347,7 @@ def search(pid, full, seed):
     for k, p in enumerate(progs):
         for extra in range(1, 5):
             out = os.path.join(trdir, 's%d_%d.txt' % (k, extra))
-            with open(out, 'wb') as f:
-                try:
-                    subprocess.run([p['exe'], str(seed * 1000 + extra), '60', '80'], stdout=f, stderr=subprocess.DEVNULL, timeout=600)
-                except subprocess.TimeoutExpired:
-                    pass
+            V.run_limited([p['exe'], str(seed * 1000 + extra), '60', '80'], out, timeout=600)
             rej = {}
             try:
                 O.judge_file(out, S.parse(p['shape']), p['config'], rej, stats, {})
